@@ -146,8 +146,20 @@ def _validate_table(ctx, qualname, class_qualname, item_counts, decimal=False):
                 items.append((lower, upper))
             items_value = list(items)
         probe = Sym("v")
+        not_a_number = False
         if decimal:
             probe.is_decimal = True
+            not_a_number = ch.choose("probe", ["finite", "NaN"]) == "NaN"
+
+            @stub
+            def is_nan(interp_, args, kwargs):
+                return not_a_number
+
+            @stub
+            def is_finite(interp_, args, kwargs):
+                return not not_a_number
+
+            probe.methods = {"is_nan": is_nan, "is_finite": is_finite}
 
         def setup(interp):
             for lower, upper in items:
@@ -161,12 +173,16 @@ def _validate_table(ctx, qualname, class_qualname, item_counts, decimal=False):
             actual = "raise " + exc_name(outcome[1])
         else:
             actual = "accept" if outcome[1] is None else ("return", outcome[1])
-        if items_value is None:
+        if not_a_number:
+            # a NaN is not a decimal value: it must be refused as a range error (never an internal error), C10
+            expected = "raise RangeValueError"
+        elif items_value is None:
             expected = "accept"
         else:
             expected = "accept" if _membership_oracle(interp, items, probe) else "raise RangeValueError"
         facts = ", ".join("%s%s%s" % (a[1], rel, b[1]) for a, rel, b in interp.order.facts)
-        return ("items=%s order[%s]" % ("none" if items_value is None else "+".join(shapes), facts), actual, expected)
+        return ("items=%s%s order[%s]" % ("none" if items_value is None else "+".join(shapes), " probe=NaN" if not_a_number else "", facts),
+                actual, expected)
 
     decide(ctx, "O1.3", "membership", qualname, cell, min_cells=10)
 
@@ -453,8 +469,7 @@ def constructor_table(ctx, rule, class_qualname, max_tokens, mode="wellformed", 
         if not read_all and outcome == "accept":
             return (sequence, "accepted without reading the whole description", "reads every token")
         if mode == "errors":
-            if verdict[0] == "malformed":
-                return (sequence, outcome, "raise InterfaceError")
+            # C10: whatever the description, the constructor accepts it or raises InterfaceError - nothing else
             actual = outcome if outcome not in ("accept", "raise InterfaceError") else "accept-or-InterfaceError"
             return (sequence, actual, "accept-or-InterfaceError")
         # mode wellformed
